@@ -366,8 +366,10 @@ def py_denote(text):
 
 
 def _canon_py(t):
-    c = _canon_type(t, "\0none")
-    return c
+    try:
+        return _canon_type(t, "\0none")
+    except Exception:  # noqa  e.g. a bare typing.List without arguments (only reachable from damaged text)
+        return [["other", repr(t)]]
 
 
 def cv_alts(h, name_of):
@@ -654,6 +656,10 @@ def stage_translation(ctx, schemas, tag):
     def small_input(pkg, v, **kw):
         s = schema_of(schemas, pkg)
         d = {"files": s["files"] if s else {}, "options": vopts(v), "package": pkg}
+        if s:
+            # everything needed to re-run this schema alone (./check C18 --replay <file>)
+            d["schema"] = {"id": s["id"], "files": s["files"], "packages": s["packages"],
+                           "values": [kw["value"]] if "value" in kw else s.get("values", [])[:6]}
         d.update(kw)
         return d
 
@@ -1116,27 +1122,47 @@ def finish(ctx):
 
 
 def replay(ctx, obj):
-    """re-run the schema of a replay file under the recorded options and report what happens"""
+    """re-run the schema of a replay file under all six option combinations (stage C on that schema alone);
+    exit status 1 while the failure is still there"""
     inp = obj.get("input") or {}
-    files = inp.get("files")
-    opts = inp.get("options", [])
-    if not files:
-        print(json.dumps(obj, indent=1)[:3000])
+    schema = inp.get("schema")
+    print(f"replaying: {obj.get('what')}  [{obj.get('kind')}/{obj.get('cls')}]  options={inp.get('options')}")
+    if schema:
+        ensure_tables(ctx)
+        stage_translation(ctx, [schema], "rp")
+        for f in ctx.failures[:8]:
+            print(f"  {f['kind']}/{f.get('cls')}: {f['what']}  options={(f.get('input') or {}).get('options')}")
+            print(f"     observed: {str(f.get('observed', f.get('observed_impl')))[:400]}")
+        print(f"{len(ctx.failures)} failure(s) reproduced" if ctx.failures else "no failure on this tree")
+        return 1 if ctx.failures else 0
+    if inp.get("ast") is not None and inp.get("compiler"):
+        c = T1.compiler_for(inp["compiler"])
+        t = _tuplify(inp["ast"])
+        real = real_print(c, t)
+        print("implementation:", real, list(c.import_lines()))
+        print("model print:", lib.coq_eval(ctx, IMPORTS_MODEL, f"print {COMP[inp['compiler']]} {coq_ty(t)}"))
+        print("model imports:", lib.coq_eval(ctx, IMPORTS_MODEL, f"import_lines {COMP[inp['compiler']]} (ty_adds {COMP[inp['compiler']]} {coq_ty(t)})"))
         return 0
-    base = ctx.work
-    PU.shim_dir(base)
-    rc, out, out_dir = PU.generate(base, files, "c18replay", opts)
-    print(f"plugin rc={rc} options={opts}")
-    if rc != 0:
-        print(out[-2000:])
-        return 1
-    pkgs = sorted({os.path.dirname(os.path.relpath(os.path.join(r, f), out_dir)).replace(os.sep, ".")
-                   for r, _, fs in os.walk(out_dir) for f in fs if f == "__init__.py"} - {""})
-    failed = 0
-    for pkg in pkgs:
-        rc2, o2 = PU.run_in_subprocess(base, f"import importlib; importlib.import_module('c18replay.{pkg}'); print('imported')")
-        print(pkg, "ok" if rc2 == 0 else "FAILED: " + o2.strip().splitlines()[-1] if o2.strip() else "")
-        failed += rc2 != 0
-    if inp.get("value"):
-        print("value case:", json.dumps(inp["value"])[:800])
-    return 1 if failed else 0
+    if inp.get("text") is not None:
+        print("CPython:", py_denote(inp["text"]))
+        print("model:", lib.coq_eval(ctx, IMPORTS_MODEL, f"denote {cs(inp['text'])}"))
+        return 0
+    if inp.get("parameter") is not None:
+        print("model:", lib.coq_eval(ctx, IMPORTS_MODEL, f"parse_options {cs(inp['parameter'])}"))
+        try:
+            src = T1.run_plugin(inp["parameter"])["c18probe/__init__.py"]
+            print("implementation: generated;", "pydantic" if "pydantic.dataclasses" in src else "standard", "dataclasses;",
+                  T1.extract(src)["classes"]["Resp"]["fields"][0][1])
+        except Exception as e:  # noqa
+            print("implementation raised", repr(e))
+        return 0
+    print(json.dumps(obj, indent=1)[:3000])
+    return 0
+
+
+def _tuplify(t):
+    if isinstance(t, list):
+        if t and t[0] == "union":
+            return ("union", [_tuplify(x) for x in t[1]])
+        return tuple(_tuplify(x) if isinstance(x, list) else x for x in t)
+    return t
